@@ -3,6 +3,7 @@ import Driver.GTreeIO
 import GeosModel.Model.WKB.Spec
 /-! Driver for C09 (exe `drv_c09`): runs the WKB model on the harness's cases.
   wkb-write            <api> <dims> <be|le> <ext|iso> <0|1> <srid geom…>   -> HEX of `write`
+  wkb-write-seq        <api> <cfg> <srid geomA…> ;; <srid geomB…>           -> HEX(A) HEX(B) s= d= o= f=  (one reused writer)
   wkb-read             B <hex bytes> | H <hex text>                        -> err | <srid geom…>
   wkb-roundtrip        <dims> <be|le> <ext|iso> <0|1> <srid geom…>         -> `docSpec` (the property's promise)
   wkb-roundtrip-model  same                                               -> `read (write c g)` of the model
@@ -143,6 +144,23 @@ def handle (stream : String) (line : String) : String :=
       match parseCase r with
       | some (c, g) => String.ofList (hexEncode (write c g))
       | none => "bad-case"
+    | [] => "bad-case"
+  | "wkb-write-seq" =>
+    -- one writer, two geometries, then the settings read back: `write` is a function of (config, geometry) only
+    match toks with
+    | _api :: r =>
+      let cfg := r.take 4
+      let rest := r.drop 4
+      let a := rest.takeWhile (· != ";;")
+      let b := (rest.dropWhile (· != ";;")).drop 1
+      match parseCase (cfg ++ a), parseCase (cfg ++ b) with
+      | some (c, ga), some (_, gb) =>
+        let d := cfg[0]?.getD "?"
+        let o := if cfg[1]? == some "le" then "1" else "0"
+        let f := if cfg[2]? == some "ext" then "1" else "2"
+        let sr := cfg[3]?.getD "?"
+        String.ofList (hexEncode (write c ga)) ++ " " ++ String.ofList (hexEncode (write c gb)) ++ s!" s={sr} d={d} o={o} f={f}"
+      | _, _ => "bad-case"
     | [] => "bad-case"
   | "wkb-read" =>
     match toks with
